@@ -335,10 +335,28 @@ def gen_lsamp(ctx, g):
             cases.append((m, seq))
     for _ in range(ctx.n(90, 1500)):
         cases.append((r.randint(1, 4), [r.randint(0, 4) for _ in range(r.randint(1, 4))]))
+    structured = {2: [[[1.0, 0.0], [0.0, 25.0]], [[1.0, 1.5], [1.5, 9.0]], [[25.0, 0.0], [0.0, 1.0]], [[0.25, -0.5], [-0.5, 16.0]]],
+                  3: [[[1.0, 0.5, 0.25], [0.5, 4.0, 1.0], [0.25, 1.0, 16.0]], [[1.0, 0.0, 0.0], [0.0, 100.0, 0.0], [0.0, 0.0, 10.0]]],
+                  4: [[[1.0, 0.5, 0.0, 0.0], [0.5, 2.0, 0.5, 0.0], [0.0, 0.5, 4.0, 0.5], [0.0, 0.0, 0.5, 8.0]]]}
+    fixedR = []
+    for m, Rs in structured.items():
+        for Rm in Rs:
+            fixedR.append((m, [2, 1], Rm))
+            fixedR.append((m, [1, 3, 0], Rm))
     for m, seq in cases:
+        fixedR.append((m, seq, None))
+    for m, seq, Rfix in fixedR:
         n = r.randint(m, 5) if m <= 5 else m
         idx = [r.randrange(n) for _ in range(m)]
-        Rm = g.spd(m, cond=10 ** r.uniform(0, 3)) if r.random() < 0.7 else g.spd_dyadic(m)
+        if Rfix is not None:
+            Rm = Rfix
+        elif r.random() < 0.25:     # increasing diagonal: the pivoted LDL^T has a non-trivial permutation
+            B = [[r.uniform(-0.3, 0.3) for _ in range(m)] for _ in range(m)]
+            Rm = vlib.mmul(B, vlib.mT(B))
+            for i in range(m):
+                Rm[i][i] += 4.0 ** i
+        else:
+            Rm = g.spd(m, cond=10 ** r.uniform(0, 3)) if r.random() < 0.7 else g.spd_dyadic(m)
         seed = r.randint(0, 2 ** 31)
         line = "lin_samp %d %d %s %s %d %d %s" % (n, m, " ".join(map(str, idx)), " ".join(cm(Rm)), seed, len(seq), " ".join(map(str, seq)))
         out.append(Case("lin_samp", line, {"n": n, "m": m, "idx": idx, "R": Rm, "seed": seed, "seq": seq}))
@@ -440,33 +458,39 @@ BRANCHES = [(0, 0, 0), (0, 1, 0), (0, 1, 1), (1, 0, 0), (1, 1, 0), (1, 1, 1)]
 def gen_motion(ctx, g):
     r = g.r
     out = []
-    combos = [(d, br, N) for d in (1, 2, 3) for br in BRANCHES for N in ((1, 3) if br[0] == 0 else (2,))]
-    combos += [(d, (0, 0, 0), N) for d in (1, 2, 3) for N in (0, 2, 4)]
+    # (Dim, branch, batch sizes of the successive calls on one object)
+    combos = [(d, br, Ns) for d in (1, 2, 3) for br in BRANCHES for Ns in (([1], [3]) if br[0] == 0 else ([2],))]
+    combos += [(d, (0, 0, 0), Ns) for d in (1, 2, 3) for Ns in ([0], [2], [4], [5, 2, 1], [1, 4, 0, 3], [3, 3, 1])]
     for _ in range(ctx.n(120, 2000)):
-        combos.append((r.choice([1, 2, 3]), r.choice(BRANCHES[:3]), r.randint(0, 4)))
-    for d, (skip, exo, exoskip), N in combos:
+        combos.append((r.choice([1, 2, 3]), r.choice(BRANCHES[:3]), [r.randint(0, 5) for _ in range(r.choice([1, 1, 2, 3]))]))
+    for d, (skip, exo, exoskip), Ns in combos:
         n = 2 * d
         T, q = pick_Tq(r)
         seed = r.randint(0, 2 ** 31)
-        X = g.mat(n, N, -8, 8) if N else []
-        out0 = g.mat(n, N, -8, 8) if N else []
-        toks = ["wna_motion", str(d), hexd(T), hexd(q), str(seed), str(N), str(skip), str(exo), str(exoskip)]
-        toks += (cm(X) if N else []) + (cm(out0) if N else [])
+        toks = ["wna_motion", str(d), hexd(T), hexd(q), str(seed), str(skip), str(exo), str(exoskip)]
         G = gv = None
         if exo:
             G = g.mat(n, n)
             gv = g.vec(n)
             toks += cm(G) + hx(gv)
-        out.append(Case("wna_motion", " ".join(toks), {"d": d, "T": T, "q": q, "seed": seed, "N": N, "br": (skip, exo, exoskip),
-                                                       "X": X, "out0": out0, "G": G, "g": gv}))
+        toks.append(str(len(Ns)))
+        batches = []
+        for N in Ns:
+            X = g.mat(n, N, -8, 8) if N else []
+            out0 = g.mat(n, N, -8, 8) if N else []
+            toks += [str(N)] + (cm(X) if N else []) + (cm(out0) if N else [])
+            batches.append({"N": N, "X": X, "out0": out0})
+        out.append(Case("wna_motion", " ".join(toks), {"d": d, "T": T, "q": q, "seed": seed, "br": (skip, exo, exoskip),
+                                                       "batches": batches, "G": G, "g": gv}))
     return out
 
 
 def post_motion(c, stats):
     m = c.meta
-    d, N, (skip, exo, exoskip) = m["d"], m["N"], m["br"]
+    d, (skip, exo, exoskip) = m["d"], m["br"]
+    Ns = [b["N"] for b in m["batches"]]
     n = 2 * d
-    what = "AdditiveStateModel::motion (WhiteNoiseAcceleration Dim %d, %d states)" % (d, N)
+    what = "AdditiveStateModel::motion (WhiteNoiseAcceleration Dim %d, successive calls with %s states on one object)" % (d, Ns)
     promised = (skip == 0)     # behaviour with the state model skipped belongs to C13
     if not c.hout.startswith("ok"):
         if promised:
@@ -476,32 +500,42 @@ def post_motion(c, stats):
         return
     rd = Reader(c.hout)
     rd.expect("ok")
-    mr, mc, M = rd.shaped()
-    zr, zc, Z = rd.shaped()
-    same = rd.tok()
+    if rd.nat() != len(Ns):
+        raise ValueError("batch count")
+    res = []
+    for b in m["batches"]:
+        mr, mc, M = rd.shaped()
+        zr, zc, Z = rd.shaped()
+        res.append((mr, mc, M, Z, rd.tok()))
     _, _, Yn = rd.shaped()
     _, _, Zn = rd.shaped()
     rd.expect("P")
     _, _, Y0 = rd.shaped()
     _, _, Z0 = rd.shaped()
-    if not (finite(Y0) and finite(M)):
+    if not (finite(Y0) and all(finite(x[2]) for x in res)):
         if promised:
             c.probs.append(("prop", "wna-motion", "%s: non-finite result" % what))
         return
     S, cond, order = recover_factor(Y0, Z0, spec_Q(d, m["T"], m["q"]))
     if S is None:
         return
-    Z = rearr(Z, order)
-    if (mr, mc) != (n, N):
-        c.probs.append(("prop", "wna-motion-shape", "%s: result is %dx%d" % (what, mr, mc)))
-        return
-    if same != "in-same":
-        c.probs.append(("prop", "wna-motion-input-modified", "%s: the input states were modified" % what))
     F = spec_F(d, m["T"])
-    X = fmat(m["X"]) if N else []
-    # specification: F x (+ u) + S z, column by column
-    if promised:
-        worst = 0.0
+    Zs = []
+    worst = 0.0
+    for bi, (b, (mr, mc, M, Z, same)) in enumerate(zip(m["batches"], res)):
+        N = b["N"]
+        Z = rearr(Z, order)
+        Zs.append(Z)
+        if (mr, mc) != (n, N):
+            if promised:
+                c.probs.append(("prop", "wna-motion-shape", "%s: result of call %d is %dx%d" % (what, bi, mr, mc)))
+            return
+        if same != "in-same":
+            c.probs.append(("prop", "wna-motion-input-modified", "%s: the input states were modified" % what))
+        if not promised:
+            continue
+        X = fmat(b["X"]) if N else []
+        # specification: F x (+ u) + S z, column by column
         for j in range(N):
             for i in range(n):
                 ex = sum(F[i][k] * X[k][j] for k in range(n)) + sum(S[i][k] * Fraction(Z[k][j]) for k in range(n))
@@ -514,41 +548,53 @@ def post_motion(c, stats):
                 err = abs(float(Fraction(M[i][j]) - ex))
                 worst = max(worst, err / tol)
                 if err > tol:
-                    c.probs.append(("prop", "wna-motion", "%s: state %d component %d is %.17g, F x%s + S z = %.17g (tol %.3g)"
-                                    % (what, j, i, M[i][j], " + u" if exo and not exoskip else "", float(ex), tol)))
+                    c.probs.append(("prop", "wna-motion", "%s: call %d state %d component %d is %.17g, F x%s + S z = %.17g (tol %.3g)"
+                                    % (what, bi, j, i, M[i][j], " + u" if exo and not exoskip else "", float(ex), tol)))
                     break
             if c.probs:
                 break
-        stats["max_relerr_motion"] = max(stats.get("max_relerr_motion", 0.0), worst)
+        if c.probs:
+            break
+    stats["max_relerr_motion"] = max(stats.get("max_relerr_motion", 0.0), worst)
+    if promised and not c.probs:
         c.probs += sample_problems(S, cond, Yn, Zn, what + ": the call after motion must continue the same stream", stats, key="wna-motion-stream")
     Sd = round_mat(S)
-    toks = ["wna_motion", str(d), hexd(m["T"]), hexd(m["q"]), str(N), str(skip), str(exo), str(exoskip)] + cm(Sd)
-    toks += (cm(m["X"]) if N else []) + (cm(m["out0"]) if N else [])
+    toks = ["wna_motion", str(d), hexd(m["T"]), hexd(m["q"]), str(skip), str(exo), str(exoskip)] + cm(Sd)
     if exo:
         toks += cm(m["G"]) + hx(m["g"])
-    draws = [Z[i][j] for j in range(N) for i in range(n)]
+    toks.append(str(len(Ns)))
+    draws = []
+    for b, Z in zip(m["batches"], Zs):
+        N = b["N"]
+        toks += [str(N)] + (cm(b["X"]) if N else []) + (cm(b["out0"]) if N else [])
+        draws += [Z[i][j] for j in range(N) for i in range(n)]
     toks += [str(len(draws))] + hx(draws)
     c.dline = " ".join(toks)
-    c.st = {"M": M, "S": S, "cond": cond, "Z": Z, "promised": promised}
+    c.st = {"res": res, "S": S, "cond": cond, "Zs": Zs, "promised": promised}
 
 
 def cmp_motion(c, stats):
     if not c.st:
         return
     m = c.meta
-    n, N = 2 * m["d"], m["N"]
+    n = 2 * m["d"]
     rd = Reader(c.dout)
     rd.expect("ok")
-    Mm = rd.mat(n, N, frac)
-    pos = rd.nat()
-    bad = pos != n * N
-    scaleX = max([abs(x) for row in (m["X"] or [[0.0]]) for x in row] + [abs(x) for row in (m["out0"] or [[0.0]]) for x in row] + [1.0])
-    for i in range(n):
-        for j in range(N):
-            mag = (2 + abs(m["T"])) * scaleX * (3 if m["G"] else 1) * 4 + rowmag(c.st["S"], i) * colmax(c.st["Z"], j)
-            tol = 512 * n * EPS * c.st["cond"] * mag
-            if abs(float(Fraction(c.st["M"][i][j]) - Mm[i][j])) > tol:
-                bad = True
+    bad = False
+    total = 0
+    for b, (mr, mc, M, _, _), Z in zip(m["batches"], c.st["res"], c.st["Zs"]):
+        N = b["N"]
+        Mm = rd.mat(n, N, frac)
+        total += n * N
+        scaleX = max([abs(x) for row in (b["X"] or [[0.0]]) for x in row] + [abs(x) for row in (b["out0"] or [[0.0]]) for x in row] + [1.0])
+        for i in range(n):
+            for j in range(N):
+                mag = (2 + abs(m["T"])) * scaleX * (3 if m["G"] else 1) * 4 + rowmag(c.st["S"], i) * colmax(Z, j)
+                tol = 512 * n * EPS * c.st["cond"] * mag
+                if abs(float(Fraction(M[i][j]) - Mm[i][j])) > tol:
+                    bad = True
+    if rd.nat() != total:
+        bad = True
     if bad:
         if c.st["promised"]:
             c.probs.append(("corr", "motion", "model addMotion and implementation motion differ (branch skip=%d exo=%d exoskip=%d)" % m["br"]))
@@ -568,31 +614,47 @@ def chol_float(Q):
     return L
 
 
+def make_batch(r, d, T, q, N, style):
+    n = 2 * d
+    F = [[float(x) for x in row] for row in spec_F(d, T)]
+    Qf = [[float(x) for x in row] for row in spec_Q(d, T, q)]
+    L = chol_float(Qf)
+    prev = [[r.uniform(-5, 5) for _ in range(N)] for _ in range(n)]
+    if style == "mixup":   # columns far apart from one another: prev_0 in place of prev_i is visible
+        prev = [[10.0 * (j + 1) * (1 if (i + j) % 2 else -1) + r.uniform(-1, 1) for j in range(N)] for i in range(n)]
+    cur = [[0.0] * N for _ in range(n)]
+    for j in range(N):
+        rad = {"rand": r.uniform(0.2, 3.0), "mixup": r.uniform(0.2, 2.0), "peak": 0.0, "far": r.uniform(4.0, 9.0)}[style]
+        z = [r.gauss(0, 1) for _ in range(n)]
+        nz = math.sqrt(sum(x * x for x in z)) or 1.0
+        z = [rad * x / nz for x in z]
+        for i in range(n):
+            cur[i][j] = sum(F[i][k] * prev[k][j] for k in range(n)) + sum(L[i][k] * z[k] for k in range(n))
+    return {"N": N, "prev": prev, "cur": cur, "style": style}
+
+
+def trans_line(d, T, q, batches):
+    toks = ["wna_trans", str(d), hexd(T), hexd(q), str(len(batches))]
+    for b in batches:
+        toks += [str(b["N"])] + (cm(b["prev"]) if b["N"] else []) + (cm(b["cur"]) if b["N"] else [])
+    return " ".join(toks)
+
+
 def gen_trans(ctx, g):
+    """successive calls on ONE object; batch sizes vary non-monotonically (state surviving between calls is visible)"""
     r = g.r
     out = []
-    combos = [(d, N, style) for d in (1, 2, 3) for N, style in ((0, "rand"), (1, "rand"), (3, "rand"), (4, "mixup"), (2, "peak"), (5, "far"))]
+    combos = [(d, plan) for d in (1, 2, 3) for plan in ([(0, "rand")], [(1, "rand")], [(3, "rand")], [(4, "mixup")], [(2, "peak")], [(5, "far")],
+                                                         [(5, "mixup"), (2, "rand"), (1, "rand")], [(1, "rand"), (4, "mixup"), (0, "rand"), (3, "far")],
+                                                         [(3, "rand"), (3, "mixup"), (1, "peak")])]
     for _ in range(ctx.n(100, 1500)):
-        combos.append((r.choice([1, 2, 3]), r.randint(1, 5), r.choice(["rand", "mixup", "rand", "far"])))
-    for d, N, style in combos:
-        n = 2 * d
+        k = r.choice([1, 1, 2, 3, 4])
+        combos.append((r.choice([1, 2, 3]), [(r.randint(0 if k > 1 else 1, 5), r.choice(["rand", "mixup", "rand", "far"])) for _ in range(k)]))
+    for d, plan in combos:
         T, q = pick_Tq(r)
-        F = [[float(x) for x in row] for row in spec_F(d, T)]
-        Qf = [[float(x) for x in row] for row in spec_Q(d, T, q)]
-        L = chol_float(Qf)
-        prev = [[r.uniform(-5, 5) for _ in range(N)] for _ in range(n)]
-        if style == "mixup":   # columns far apart from one another: prev_0 in place of prev_i is visible
-            prev = [[10.0 * (j + 1) * (1 if (i + j) % 2 else -1) + r.uniform(-1, 1) for j in range(N)] for i in range(n)]
-        cur = [[0.0] * N for _ in range(n)]
-        for j in range(N):
-            rad = {"rand": r.uniform(0.2, 3.0), "mixup": r.uniform(0.2, 2.0), "peak": 0.0, "far": r.uniform(4.0, 9.0)}[style]
-            z = [r.gauss(0, 1) for _ in range(n)]
-            nz = math.sqrt(sum(x * x for x in z)) or 1.0
-            z = [rad * x / nz for x in z]
-            for i in range(n):
-                cur[i][j] = sum(F[i][k] * prev[k][j] for k in range(n)) + sum(L[i][k] * z[k] for k in range(n))
-        line = " ".join(["wna_trans", str(d), hexd(T), hexd(q), str(N)] + (cm(prev) if N else []) + (cm(cur) if N else []))
-        out.append(Case("wna_trans", line, {"d": d, "T": T, "q": q, "N": N, "prev": prev, "cur": cur, "style": style}))
+        batches = [make_batch(r, d, T, q, N, style) for N, style in plan]
+        out.append(Case("wna_trans", trans_line(d, T, q, batches), {"d": d, "T": T, "q": q, "batches": batches,
+                                                                    "style": "+".join(st for _, st in plan) if len(plan) == 1 else "sequence"}))
     return out
 
 
@@ -614,66 +676,87 @@ def spec_logdensity(d, T, q, prev, cur, N):
 
 def post_trans(c, stats):
     m = c.meta
-    d, N = m["d"], m["N"]
-    what = "WhiteNoiseAcceleration::getTransitionProbability Dim %d, %d pairs (%s)" % (d, N, m["style"])
+    d = m["d"]
+    sizes = [b["N"] for b in m["batches"]]
+    what = "WhiteNoiseAcceleration::getTransitionProbability Dim %d, successive batches of %s pairs on one object" % (d, sizes)
     if not c.hout.startswith("ok"):
         return crash_problem(c, "wna-transition-crash", what)
     rd = Reader(c.hout)
     rd.expect("ok")
-    k = rd.nat()
-    if k != N:
-        c.probs.append(("prop", "wna-transition", "%s: %d values returned" % (what, k)))
-        return
-    p = rd.vec(k)
-    det, spec = spec_logdensity(d, m["T"], m["q"], m["prev"], m["cur"], N)
+    if rd.nat() != len(sizes):
+        raise ValueError("batch count")
     condQ = 40.0 * max(m["T"] ** 2, m["T"] ** -2)
     worst = 0.0
-    for j in range(N):
-        quad, ld = spec[j]
-        tol = 1e-12 * condQ * (1.0 + float(quad)) + 1e-11 * (1 + abs(ld))
-        if p[j] > 0 and math.isfinite(p[j]):
-            err = abs(math.log(p[j]) - ld)
-        else:
-            err = 0.0 if (p[j] == 0 and ld < -700) else float("inf")
-        worst = max(worst, err / tol) if err == err else float("inf")
-        if not (err <= tol):
-            c.probs.append(("prop", "wna-transition", "%s: pair %d has density %.17g, N(cur; F prev, Q) = %.17g (log diff %.3g, tol %.3g)"
-                            % (what, j, p[j], math.exp(ld) if ld > -700 else 0.0, err, tol)))
-            break
+    ps, specs, det = [], [], None
+    for bi, b in enumerate(m["batches"]):
+        N = b["N"]
+        k = rd.nat()
+        p = rd.vec(k)
+        ps.append(p)
+        det, spec = spec_logdensity(d, m["T"], m["q"], b["prev"], b["cur"], N)
+        specs.append(spec)
+        if c.probs:
+            continue
+        if k != N:
+            c.probs.append(("prop", "wna-transition", "%s: call %d returned %d values for %d pairs" % (what, bi, k, N)))
+            continue
+        for j in range(N):
+            quad, ld = spec[j]
+            tol = 1e-12 * condQ * (1.0 + float(quad)) + 1e-11 * (1 + abs(ld))
+            if p[j] > 0 and math.isfinite(p[j]):
+                err = abs(math.log(p[j]) - ld)
+            else:
+                err = 0.0 if (p[j] == 0 and ld < -700) else float("inf")
+            worst = max(worst, err / tol) if err == err else float("inf")
+            if not (err <= tol):
+                c.probs.append(("prop", "wna-transition", "%s: call %d pair %d has density %.17g, N(cur; F prev, Q) = %.17g (log diff %.3g, tol %.3g)"
+                                % (what, bi, j, p[j], math.exp(ld) if ld > -700 else 0.0, err, tol)))
+                break
     stats["max_relerr_density"] = max(stats.get("max_relerr_density", 0.0), worst)
-    c.st = {"p": p, "spec": spec, "det": det, "condQ": condQ}
+    c.st = {"ps": ps, "specs": specs, "det": det, "condQ": condQ}
     c.dline = c.line
 
 
 def cmp_trans(c, stats):
     if not c.st:
         return
-    N = c.meta["N"]
     if not c.dout.startswith("ok"):
         c.probs.append(("corr", "transition-model-undefined", "model density not defined: %s" % c.dout[:40]))
         return
     rd = Reader(c.dout)
     rd.expect("ok")
     det = frac(rd.tok())
-    quads = rd.vec(N, frac)
-    dens = rd.vec(N)
-    if det != c.st["det"] or quads != [s[0] for s in c.st["spec"]]:
-        c.probs.append(("corr", "model-vs-spec", "the model's residual quadratic form / determinant differ from N(cur_i; F prev_i, Q) evaluated independently"))
+    if c.st["det"] is not None and det != c.st["det"]:
+        c.probs.append(("corr", "model-vs-spec", "the model's determinant differs from det Q evaluated independently"))
         return
-    for j in range(N):
-        quad, ld = c.st["spec"][j]
-        tol = 1e-12 * c.st["condQ"] * (1.0 + float(quad)) + 1e-11 * (1 + abs(ld))
-        a, b = dens[j], c.st["p"][j]
-        if a > 0 and b > 0:
-            err = abs(math.log(a) - math.log(b))
-        else:
-            err = 0.0 if (a == b or ld < -700) else float("inf")
-        if abs(math.log(a) - ld) > tol if a > 0 else ld > -700:
-            c.probs.append(("corr", "model-float-density", "the model's Float density differs from the exact evaluation"))
+    for b, p, spec in zip(c.meta["batches"], c.st["ps"], c.st["specs"]):
+        N = b["N"]
+        quads = rd.vec(N, frac)
+        dens = rd.vec(N)
+        if quads != [s_[0] for s_ in spec]:
+            c.probs.append(("corr", "model-vs-spec", "the model's residual quadratic forms differ from N(cur_i; F prev_i, Q) evaluated independently"))
             return
-        if err > 2 * tol:
-            c.probs.append(("corr", "transition", "model density and implementation density differ for pair %d" % j))
+        if len(p) != N:
+            c.probs.append(("corr", "transition", "model returns %d values, implementation %d" % (N, len(p))))
             return
+        for j in range(N):
+            quad, ld = spec[j]
+            tol = 1e-12 * c.st["condQ"] * (1.0 + float(quad)) + 1e-11 * (1 + abs(ld))
+            a, bb = dens[j], p[j]
+            if a > 0:
+                if abs(math.log(a) - ld) > tol:
+                    c.probs.append(("corr", "model-float-density", "the model's Float density differs from the exact evaluation"))
+                    return
+            elif ld > -700:
+                c.probs.append(("corr", "model-float-density", "the model's Float density underflows where the exact one does not"))
+                return
+            if a > 0 and bb > 0 and math.isfinite(bb):
+                err = abs(math.log(a) - math.log(bb))
+            else:
+                err = 0.0 if (a == bb or ld < -700) else float("inf")
+            if not (err <= 2 * tol):
+                c.probs.append(("corr", "transition", "model density and implementation density differ for pair %d" % j))
+                return
 
 
 # ------------------------------------------------------------------ constructors
@@ -1054,6 +1137,8 @@ def gen_sensor(ctx, g):
     def add(tr, circ, idx, ops, cls):
         m = len(idx)
         Rm = g.spd(m, cond=10 ** r.uniform(0, 3)) if r.random() < 0.6 else g.spd_dyadic(m)
+        if m > 1 and r.random() < 0.3:     # largest variance last: the pivoted LDL^T permutes
+            Rm = [[(4.0 ** i if i == j else 0.25 * (1 + min(i, j))) for j in range(m)] for i in range(m)]
         sseed = r.randint(0, 2 ** 31)
         toks = ["sensor"] + traj_htoks(tr, circ=circ) + [str(tr["n"]), str(m)] + [str(i) for i in idx] + cm(Rm) + [str(sseed), str(len(ops))] + list(ops)
         out.append(Case("sensor", " ".join(toks), {"tr": tr, "circ": circ, "idx": list(idx), "R": Rm, "sseed": sseed, "ops": list(ops), "cls": cls}))
@@ -1260,6 +1345,8 @@ def gen_grid(ctx, g):
         for ny in range(2, 7):
             add(areas[(nx * 5 + ny) % len(areas)], nx, ny, 4, nx * ny, "valid")
             add((r.uniform(-50, 0), r.uniform(1, 50), r.uniform(-50, 0), r.uniform(1, 50), 0), nx, ny, 4, nx * ny, "valid")
+    for nx, ny in ((2, 3), (3, 2), (5, 3), (3, 5), (4, 9), (9, 4), (2, 7), (7, 2), (8, 3)):
+        add(areas[(nx + ny) % len(areas)], nx, ny, 4, nx * ny, "non-square")
     for nx, ny in ((2, 2), (2, 5), (3, 4), (6, 2), (4, 4)):
         for N in (nx * ny - 1, nx * ny + 1, nx * ny + ny, nx + ny, 1):
             if N != nx * ny:
@@ -1291,6 +1378,8 @@ def post_grid(c, stats):
     sr, sc, st = rd.shaped()
     wn = rd.nat()
     w = rd.vec(wn)
+    if rd.tok() != "again-same":
+        c.probs.append(("prop", "grid-stateful", "%s: a second call of the same initialiser on an identical particle set gave another result" % what))
     c.st = {"ok": ok, "st": st, "w": w}
     c.dline = " ".join(["grid"] + c.line.split()[2:])
     if ok != want:
@@ -1391,11 +1480,15 @@ def corpus_cases():
             n, m = int(t[1]), int(t[2])
             out.append(Case(op, ln, {"n": n, "idx": [int(x) for x in t[3:3 + m]], "rr": int(t[3 + m]), "rc": int(t[4 + m]), "cls": "corpus"}))
         elif op == "wna_trans":
-            d, N = int(t[1]), int(t[4])
+            d, k = int(t[1]), int(t[4])
             n = 2 * d
-            prev = vlib.mat_from_cm(t[5:5 + n * N], n, N, unhex) if N else []
-            cur = vlib.mat_from_cm(t[5 + n * N:5 + 2 * n * N], n, N, unhex) if N else []
-            out.append(Case(op, ln, {"d": d, "T": unhex(t[2]), "q": unhex(t[3]), "N": N, "prev": prev, "cur": cur, "style": "corpus", "cls": "corpus"}))
+            pos, batches = 5, []
+            for _ in range(k):
+                N = int(t[pos]); pos += 1
+                prev = vlib.mat_from_cm(t[pos:pos + n * N], n, N, unhex) if N else []; pos += n * N
+                cur = vlib.mat_from_cm(t[pos:pos + n * N], n, N, unhex) if N else []; pos += n * N
+                batches.append({"N": N, "prev": prev, "cur": cur, "style": "corpus"})
+            out.append(Case(op, ln, {"d": d, "T": unhex(t[2]), "q": unhex(t[3]), "batches": batches, "style": "corpus", "cls": "corpus"}))
     return out
 
 
